@@ -57,12 +57,42 @@ var c11hookOnce sync.Once
 func c11Templates(r interface{ IntN(int) int }) (*ref.Node, []string, []*gen.Ty) {
 	a := ref.Id("a")
 	lazyL := func(n int64) *ref.Node {
-		return ref.Method(ref.Static("numbers", ref.Int(n)), "map", ref.Clo([]string{"x"}, ref.Bin("*", ref.Id("x"), ref.Int(2))))
+		id := ref.Id
+		src := ref.Static("numbers", ref.Int(n))
+		var l *ref.Node
+		// the constant lazy list: built from every kind of stage (stages that call closures with several
+		// arguments use the stack they are given), optionally cut by top/skip, never evaluated at Generate time
+		switch r.IntN(9) {
+		case 0:
+			l = ref.Method(src, "number", ref.Clo([]string{"i", "x"}, ref.Bin("+", ref.Bin("*", id("i"), ref.Int(3)), id("x"))))
+		case 1:
+			l = ref.Method(src, "iir", ref.Clo([]string{"x"}, id("x")), ref.Clo([]string{"x", "p"}, ref.Bin("+", id("x"), ref.Bin("%", id("p"), ref.Int(7)))))
+		case 2:
+			l = ref.Method(src, "combine", ref.Clo([]string{"p", "q"}, ref.Bin("+", id("p"), ref.Bin("*", id("q"), ref.Int(2)))))
+		case 3:
+			l = ref.Method(ref.ListN(ref.Int(1), ref.Int(2)), "cross", ref.Static("numbers", ref.Int(n/2+1)), ref.Clo([]string{"p", "q"}, ref.Bin("+", ref.Bin("*", id("p"), ref.Int(100)), id("q"))))
+		case 4:
+			l = ref.Method(src, "merge", ref.Method(ref.Static("numbers", ref.Int(n)), "map", ref.Clo([]string{"x"}, ref.Bin("*", id("x"), ref.Int(2)))), ref.Clo([]string{"p", "q"}, ref.Bin("<", id("p"), id("q"))))
+		case 5:
+			l = ref.Method(src, "compact", ref.Clo([]string{"p", "q"}, ref.Bin("=", ref.Bin("/", id("p"), ref.Int(2)), ref.Bin("/", id("q"), ref.Int(2)))))
+		default:
+			l = ref.Method(src, "map", ref.Clo([]string{"x"}, ref.Bin("*", id("x"), ref.Int(2))))
+		}
+		switch r.IntN(4) {
+		case 0:
+			l = ref.Method(l, "top", ref.Int(n-2))
+		case 1:
+			l = ref.Method(l, "skip", ref.Int(1))
+		}
+		return l
 	}
 	L := ref.Id("l")
 	idx := ref.Bin("%", ref.Static("abs", a), ref.Int(5))
 	var body *ref.Node
-	switch k := r.IntN(16); k {
+	switch k := r.IntN(17); k {
+	case 16:
+		// random numbers: the outcome is not comparable, but evaluations must not race on the generator's state
+		return ref.Method(ref.Method(ref.Static("numbers", ref.Int(200)), "map", ref.Clo([]string{"i"}, ref.Bin("+", ref.Static("random", ref.Int(6)), ref.Static("random")))), "sum"), []string{"a"}, []*gen.Ty{gen.TInt}
 	case 10, 11, 12, 13, 14, 15:
 		// a constant map (folded into one object shared by all evaluations) of 1..45 entries - sizes around every
 		// representation threshold - that is looked into by key only at run time
@@ -124,7 +154,15 @@ func c11Templates(r interface{ IntN(int) int }) (*ref.Node, []string, []*gen.Ty)
 	case 6:
 		body = ref.ListN(ref.Method(L, "first"), ref.Method(L, "last"), ref.Bin("~", a, L), ref.Method(L, "reverse"))
 	case 7:
-		body = ref.Method(ref.Method(L, "map", ref.Clo([]string{"y"}, ref.Bin("+", ref.Id("y"), a))), "sum")
+		// consumers that do not evaluate (store) the list: every evaluation iterates the shared lazy constant
+		switch r.IntN(3) {
+		case 0:
+			body = ref.Method(ref.Method(L, "map", ref.Clo([]string{"y"}, ref.Bin("+", ref.Id("y"), a))), "sum")
+		case 1:
+			body = ref.Method(L, "mapReduce", a, ref.Clo([]string{"s", "y"}, ref.Bin("+", ref.Id("s"), ref.Id("y"))))
+		default:
+			body = ref.Method(ref.Method(L, "accept", ref.Clo([]string{"y"}, ref.Bin("!=", ref.Id("y"), a))), "reduce", ref.Clo([]string{"p", "q"}, ref.Bin("+", ref.Id("p"), ref.Id("q"))))
+		}
 	default:
 		body = ref.Method(ref.Method(L, "set", idx, a), "string")
 	}
@@ -249,7 +287,7 @@ func (c11) Run(c *wk.Case) {
 				why := ""
 				// values are compared only if the program has no construct whose order the documentation leaves
 				// open (then two correct evaluations may differ): there only ok-vs-error is compared
-				orderOpen := strings.Contains(src, "groupBy") || strings.Contains(src, "unique") || strings.Contains(src, ".eval()")
+				orderOpen := strings.Contains(src, "groupBy") || strings.Contains(src, "unique") || strings.Contains(src, ".eval()") || strings.Contains(src, "random(")
 				if !bad && iso.Err == nil && !orderOpen {
 					ok, d := realEqual(iso.Val, outs[i].Val, false, "")
 					bad, why = !ok, d
